@@ -31,6 +31,10 @@ pub struct Parser<'a> {
     /// Result of `token_after_matching_paren` per `(` start offset (the scan is linear in the
     /// length of the group, so it is done once per group even when the group is re-parsed).
     paren_follow_cache: FxHashMap<usize, Option<TokenKind>>,
+    /// Spans of `{ name = default }` shorthand properties met in object literals. They are
+    /// only legal where the literal turns out to be a destructuring assignment target; the
+    /// ones still listed when the enclosing full expression ends are syntax errors.
+    cover_initializers: Vec<Span>,
 }
 
 /// Maximum combined nesting of statements / expressions / types / patterns.
@@ -51,6 +55,7 @@ impl<'a> Parser<'a> {
             failed_arrow_starts: FxHashSet::default(),
             failed_generic_arrow_starts: FxHashSet::default(),
             paren_follow_cache: FxHashMap::default(),
+            cover_initializers: Vec::new(),
         }
     }
 
@@ -120,9 +125,12 @@ impl<'a> Parser<'a> {
 
     fn parse_statement(&mut self) -> Result<Statement, JsError> {
         self.enter_nesting()?;
+        let start = self.current.span.start;
         let result = self.parse_statement_unguarded();
         self.nesting -= 1;
-        result
+        let statement = result?;
+        self.reject_stray_cover_initializers(start)?;
+        Ok(statement)
     }
 
     fn parse_statement_unguarded(&mut self) -> Result<Statement, JsError> {
@@ -415,7 +423,14 @@ impl<'a> Parser<'a> {
             }
 
             let prop_start = self.current.span;
-            let key = self.parse_property_name()?;
+            // A computed key: { [expr]: target }
+            let key = if self.match_token(&TokenKind::LBracket) {
+                let expr = self.parse_assignment_expression()?;
+                self.require_token(&TokenKind::RBracket)?;
+                ObjectPropertyKey::Computed(Rc::new(expr))
+            } else {
+                self.parse_property_name()?
+            };
 
             let (value, shorthand) = if self.match_token(&TokenKind::Colon) {
                 (self.parse_binding_pattern()?, false)
@@ -2315,7 +2330,33 @@ impl<'a> Parser<'a> {
     // ============ EXPRESSIONS ============
 
     fn parse_expression(&mut self) -> Result<Expression, JsError> {
-        self.parse_sequence_expression()
+        let start = self.current.span.start;
+        let expr = self.parse_sequence_expression()?;
+        self.reject_stray_cover_initializers(start)?;
+        Ok(expr)
+    }
+
+    /// A `{ name = default }` in the source parsed since `start` that did not become part of a
+    /// destructuring target is not an object literal
+    fn reject_stray_cover_initializers(&mut self, start: usize) -> Result<(), JsError> {
+        if self.cover_initializers.is_empty() {
+            return Ok(());
+        }
+        let end = self.current.span.start;
+        let stray = self
+            .cover_initializers
+            .iter()
+            .find(|span| span.start >= start && span.start < end)
+            .copied();
+        self.cover_initializers.retain(|span| span.start < start);
+        match stray {
+            Some(span) => Err(JsError::syntax_error(
+                "Invalid shorthand property initializer",
+                span.line,
+                span.column,
+            )),
+            None => Ok(()),
+        }
     }
 
     fn parse_sequence_expression(&mut self) -> Result<Expression, JsError> {
@@ -2357,8 +2398,14 @@ impl<'a> Parser<'a> {
 
         if let Some(op) = self.current_assignment_op() {
             self.advance();
+            let target_end = self.previous.span.start;
             let right = Rc::new(self.parse_assignment_expression()?);
             let left = self.expression_to_assignment_target(&expr)?;
+            if matches!(left, AssignmentTarget::Pattern(_)) && op == AssignmentOp::Assign {
+                // `{ name = default }` shorthands inside the target are pattern defaults
+                self.cover_initializers
+                    .retain(|span| span.start < start.start || span.start >= target_end);
+            }
             let span = self.span_from(start);
             return Ok(Expression::Assignment(Box::new(AssignmentExpression {
                 operator: op,
@@ -3255,6 +3302,21 @@ impl<'a> Parser<'a> {
         } else {
             // Shorthand: { a } is { a: a }
             match &key {
+                ObjectPropertyKey::Identifier(id) if self.check(&TokenKind::Eq) && !computed => {
+                    // { a = default }: only meaningful as a destructuring assignment target
+                    // (see `cover_initializers`)
+                    self.cover_initializers.push(id.span);
+                    self.advance();
+                    let right = Rc::new(self.parse_assignment_expression()?);
+                    let span = self.span_from(start);
+                    let assignment = Expression::Assignment(Box::new(AssignmentExpression {
+                        operator: AssignmentOp::Assign,
+                        left: AssignmentTarget::Identifier(id.clone()),
+                        right,
+                        span,
+                    }));
+                    (assignment, true)
+                }
                 ObjectPropertyKey::Identifier(id) => (Expression::Identifier(id.clone()), true),
                 _ => return Err(self.error("Shorthand property must be an identifier")),
             }
